@@ -198,7 +198,7 @@ fn check_a(src: &str, pipes: &[Pipeline]) -> (u64, u64, Vec<Violation>) {
         };
         if let Some(pb) = problem {
             out.push(Violation {
-                finding: classify_a(src, &text, p),
+                finding: classify_a(src, &text, p, &pb),
                 summary: format!("{}: rules {:?}\n--- input  {:?}\n--- output {:?}", pb, p.rules, src, text),
                 replay: json!({"kind": "comment rules", "input": src, "rules": p.rules, "output": text, "problem": pb}),
             });
@@ -207,9 +207,13 @@ fn check_a(src: &str, pipes: &[Pipeline]) -> (u64, u64, Vec<Violation>) {
     (n, nontrivial, out)
 }
 
-fn classify_a(src: &str, _out: &str, p: &Pipeline) -> Option<String> {
+fn classify_a(src: &str, _out: &str, p: &Pipeline, problem: &str) -> Option<String> {
     if !p.prepended.is_empty() && lex(src.as_bytes(), Mode::Luau).ok().and_then(|l| l.tokens.first().map(|t| matches!(t.tok, Tok::Sym("@")))).unwrap_or(false) {
         return Some("start-comment-inserted-after-leading-attribute".to_owned());
+    }
+    // the known defect only loses comment material: changed code tokens or output that does not lex are something else
+    if !problem.starts_with("comments are") {
+        return None;
     }
     // repair model: without the comments around type-pack `...` tokens the same input passes the same check
     let repaired = strip_ellipsis_trivia(src)?;
@@ -255,6 +259,46 @@ const FILES: &[&str] = &[
     "local a = 1\nlocal b = [[\nlong\n]]\nreturn a, b\n",
     "f()\n\n\ng()",
     "local s = 'x' --[[c]] return s --[==[ d ]==]",
+    // last statements ending in a semicolon, a type, a typed name, and every other kind of last token
+    "return 1;",
+    "return 1;\n",
+    "f();",
+    "while true do break; end",
+    "local a = 1;",
+    "type A = number",
+    "type A = number\n",
+    "export type B<T> = { T }",
+    "type F = (number) -> ...string",
+    "type G<T...> = (T...) -> T...",
+    "local x: number",
+    "local x: number, y: string",
+    "local x: number = 1",
+    "local function f(): number end",
+    "local f = function(...: number): ...string end",
+    "return a :: T",
+    "return a :: { x: number }",
+    "for i: number = 1, 2 do end",
+    "return function() end",
+    "return { 1 }",
+    "return `a{b}`",
+    "return f 's'",
+    "return f { }",
+    "return ...",
+    "return not a",
+    "repeat until a",
+    "a = b",
+    "a += 1",
+    "const c = 1",
+    "@native function f() end",
+    "type function tf() end",
+    "return f<<number>>()",
+    "return a.b",
+    "return a[1]",
+    "return (a)",
+    "return if a then b else c",
+    "return nil",
+    "return 0xF",
+    "continue",
 ];
 
 fn check_b(text: &str, location: &str, file: &str) -> (u64, Vec<Violation>) {
@@ -294,7 +338,9 @@ fn check_b(text: &str, location: &str, file: &str) -> (u64, Vec<Violation>) {
                 Err(e) => Some(format!("output does not lex ({:?} rules): {}", mode, e)),
                 Ok(lout) => {
                     let code_out = code_tokens(&output, &lout);
-                    let same_code = code_out.iter().map(|c| &c.0).collect::<Vec<_>>() == code_in.iter().map(|c| &c.0).collect::<Vec<_>>();
+                    // the token-less generators never write optional semicolons
+                    let is_semicolon = |c: &&(String, u32)| tokens || c.0 != "Sym(\";\")";
+                    let same_code = code_out.iter().filter(is_semicolon).map(|c| &c.0).collect::<Vec<_>>() == code_in.iter().filter(is_semicolon).map(|c| &c.0).collect::<Vec<_>>();
                     if !same_code {
                         Some(format!("code tokens changed under {:?} rules: {:?} -> {:?}", mode, code_in.iter().map(|c| &c.0).collect::<Vec<_>>(), code_out.iter().map(|c| &c.0).collect::<Vec<_>>()))
                     } else if gen == Gen::Retain && !code_in.is_empty() {
